@@ -61,6 +61,20 @@ func (m *ClientMap) SendQueue(addr net.Addr) chan []byte {
 	return m.inner.SendQueue(addr, time.Now())
 }
 
+// trySend puts p on the send queue corresponding to addr, creating the queue if
+// necessary, unless the queue is full. The lock is held across the send, so
+// that it cannot overlap the closing of an expired queue by removeExpired.
+func (m *ClientMap) trySend(addr net.Addr, p []byte) bool {
+	m.lock.Lock()
+	defer m.lock.Unlock()
+	select {
+	case m.inner.SendQueue(addr, time.Now()) <- p:
+		return true
+	default:
+		return false
+	}
+}
+
 // clientMapInner is the inner type of ClientMap, implementing heap.Interface.
 // byAge is the backing store, a heap ordered by LastSeen time, to facilitate
 // expiring old client records. byAddr is a map from addresses (i.e., ClientIDs)
